@@ -79,6 +79,21 @@ def gen_specs(run):
                 st = gen.stmt_of(mem)
                 st["commit"] = list(vec)
                 add({"proof": 0, "stmt": st, "ctx": mem["ctx"]}, f"run:{name}", 0)
+        if m >= 2:
+            # statements holding a DEGENERATE commitment (the identity: value 0 under an all-zero mask — a valid opening; or the value generator itself) at a
+            # position other than the last: every LATER commitment is still a datum of its own — two statements that differ in one of them give
+            # different challenges throughout (compared with each other, not with the base run)
+            degs = [("identity", {"v": "0", "r": [gen.hx(0)] * T}), ("H", {"v": "1", "r": [gen.hx(0)] * T})]
+            for (dname, dopen) in degs:
+                for z in sorted({0, rng.randrange(m - 1)}):
+                    j = rng.randrange(z + 1, m)
+                    st_a = gen.stmt_of(mem)
+                    st_a["commit"][z] = dict(dopen)
+                    st_a["promises"][z] = None
+                    st_b = copy.deepcopy(st_a)
+                    st_b["commit"][j] = {"open": st_b["commit"][j], "shiftH": gen.hx(1)}
+                    add({"proof": 0, "stmt": st_a, "ctx": mem["ctx"]}, f"cpair:a:{dname}@{z}:V{j}", 0)
+                    add({"proof": 0, "stmt": st_b, "ctx": mem["ctx"]}, f"cpair:b:{dname}@{z}:V{j}", 0)
         # promise encodings must be injective over the whole u64 range: neighbouring values at the top, in the middle and at the bottom of what the
         # bit length admits (a promise beyond it is refused before any challenge is drawn), compared with each other rather than with the base run
         top = (1 << 64) - 1 if b == 64 else (1 << b) - 1
@@ -182,6 +197,26 @@ def oracle(run, s, o):
                         run.violation(f"two statements that differ in one commitment (runs of equal neighbouring commitments, '{na}' vs '{nb_}') give an equal challenge "
                                       f"(bits={b}, m={m}, T={T}): a commitment equal to its neighbour is not bound at its own position", rp)
                         break
+            continue
+        if tag.startswith("cpair:"):
+            _, half, what, which = tag.split(":")
+            cs = chals_of(vo)
+            if half == "a":
+                pending[("cpair", what, which)] = cs
+                continue
+            ca = pending.get(("cpair", what, which))
+            run.count(["c04cpair", b, m, T, what.split("@")[0]], {"bits": b, "m": m, "T": T, "degenerate_commitment": what, "changed": which})
+            run.bump("pairs after a degenerate commitment")
+            if vo["result"] == "ok":
+                run.violation(f"proof accepted under a statement with other commitments ({what}, {which} changed; bits={b}, m={m}, T={T})", rp)
+            if not ca or len(ca) != len(cs):
+                # a statement the constructors or the transcript refuse altogether derives no challenges: nothing to compare
+                continue
+            for i in range(len(cs)):
+                if ca[i] == cs[i]:
+                    run.violation(f"challenge #{i} is the same for two statements that differ in commitment {which} (bits={b}, m={m}, T={T}); the statement holds the "
+                                  f"degenerate commitment {what}: commitments after it are not bound", rp)
+                    break
             continue
         if tag.startswith("pair"):
             half, j, x, y = tag[4:].split(":")
